@@ -624,13 +624,21 @@ def moment(
     if order < 2:
         # get reduced shape and chunks
         reduced = a.sum(axis=axis, keepdims=keepdims)
-        if order == 0:
-            # When order equals 0, the result is 1, by definition.
+        # When order equals 0, the result is 1, by definition, and
+        # by definition the first order about the mean is 0.
+        if np.isnan(reduced.shape).any():
+            # The constant blocks cannot be created up front when chunk sizes
+            # are unknown; fill the blocks of the reduction instead.
+            result = reduced.map_blocks(
+                partial(np.full_like, fill_value=1 - order, dtype=dt),
+                dtype=dt,
+                meta=reduced._meta.astype(dt),
+            )
+        elif order == 0:
             result = ones(
                 reduced.shape, chunks=reduced.chunks, dtype=dt, meta=reduced._meta
             )
         else:
-            # By definition the first order about the mean is 0.
             result = zeros(
                 reduced.shape, chunks=reduced.chunks, dtype=dt, meta=reduced._meta
             )
